@@ -98,9 +98,9 @@ func DecodeChained(r io.Reader, opts ...DecodeOption) ([]*File, error) {
 		}
 		err := d.decode(r, false, false, false)
 		if err != nil {
-			if d.h.Size == 0 && i != 0 {
-				// Header not read, and not first file:
-				// EOF, no more data.
+			if i != 0 && errors.Is(err, errReadSize) {
+				// Not first file, and clean end of input before
+				// the first header byte: EOF, no more data.
 				return fitFiles, nil
 			}
 			if d.file != nil {
